@@ -61,6 +61,8 @@ var forbidden = map[string]map[string]bool{
 	"sync/atomic": {},
 }
 
+var lenient bool // test files: leave constructs without a shim alone
+
 type fileCtx struct {
 	pkg      *packages.Package
 	file     *ast.File
@@ -148,7 +150,7 @@ func (c *fileCtx) rewrite() {
 				c.changed = true
 				return true
 			}
-			if forbidden[path][n.Sel.Name] {
+			if forbidden[path][n.Sel.Name] && !lenient {
 				c.errf(n.Pos(), "%s.%s has no shim", path, n.Sel.Name)
 			}
 			c.remain[path]++
@@ -360,6 +362,7 @@ var shimPaths = map[string]string{
 func main() {
 	dir := flag.String("dir", ".", "module directory")
 	verbose := flag.Bool("v", false, "verbose")
+	withTests := flag.Bool("tests", false, "also rewrite _test.go files (transparency self-test); constructs without a shim are left alone there")
 	flag.Parse()
 	patterns := flag.Args()
 	if len(patterns) == 0 {
@@ -367,7 +370,8 @@ func main() {
 	}
 	cfg := &packages.Config{
 		Mode: packages.NeedName | packages.NeedFiles | packages.NeedCompiledGoFiles | packages.NeedSyntax | packages.NeedTypes | packages.NeedTypesInfo | packages.NeedImports | packages.NeedDeps,
-		Dir:  *dir,
+		Dir:   *dir,
+		Tests: *withTests,
 	}
 	pkgs, err := packages.Load(cfg, patterns...)
 	if err != nil {
@@ -377,12 +381,18 @@ func main() {
 	bad := false
 	nfiles, nchanged := 0, 0
 	counts := map[string]int{}
+	doneFiles := map[string]bool{}
 	for _, p := range pkgs {
 		for _, e := range p.Errors {
 			fmt.Fprintln(os.Stderr, "instr: package error:", e)
 			bad = true
 		}
 		for i, f := range p.Syntax {
+			if i >= len(p.CompiledGoFiles) || doneFiles[p.CompiledGoFiles[i]] || !strings.HasSuffix(p.CompiledGoFiles[i], ".go") || strings.Contains(p.CompiledGoFiles[i], "/go-build/") {
+				continue
+			}
+			doneFiles[p.CompiledGoFiles[i]] = true
+			lenient = strings.HasSuffix(p.CompiledGoFiles[i], "_test.go")
 			nfiles++
 			c := &fileCtx{pkg: p, file: f, need: map[string]bool{}, remain: map[string]int{}}
 			c.rewrite()
@@ -425,14 +435,21 @@ func main() {
 				}
 			}
 			// comments inside rewritten code would be re-attached at arbitrary places: keep only the header
+			// (test files keep theirs: some carry directives such as go:linkname)
 			var keep []*ast.CommentGroup
+			if lenient {
+				keep = f.Comments
+			}
 			for _, cg := range f.Comments {
+				if lenient {
+					break
+				}
 				if cg.End() < f.Package {
 					keep = append(keep, cg)
 					continue
 				}
 				for _, cm := range cg.List {
-					if strings.HasPrefix(cm.Text, "//go:") {
+					if strings.HasPrefix(cm.Text, "//go:") && !lenient {
 						fmt.Fprintf(os.Stderr, "instr: %s: directive comment in a rewritten file\n", p.Fset.Position(cm.Pos()))
 						bad = true
 					}
@@ -440,6 +457,9 @@ func main() {
 			}
 			f.Comments = keep
 			ast.Inspect(f, func(n ast.Node) bool {
+				if lenient {
+					return false
+				}
 				switch d := n.(type) {
 				case *ast.FuncDecl:
 					d.Doc = nil
